@@ -19,6 +19,9 @@ Cases:
   {"op":"uc","args":{..},"items":[W|null,..]}     UpdateContext: construction and calls (null = a value without context)
   {"op":"dc","key":{"s":str}|{"l":[..]}|{"t":[..]},"items":[W|null,..]}   DeleteContext
   {"op":"setctx","key":str,"value":W|{"pieces":..},"ctxs":[W,..]}    SetContext._set_context / _get_context
+  {"op":"context","items":[W|null,..],"names":[str,..]}              Context.__call__ / __getattr__ / __repr__
+  {"op":"wfdup","vs":[W,..]}                      model only: the well-formedness test on wire values with repeated keys
+Keys of dc/fuw/setctx/s2d may also be non-strings (an int, null, a wire list): the malformed-argument contract.
 """
 import copy
 import itertools
@@ -29,7 +32,7 @@ from harness.common import exc_name, jdump
 PID = "C08"
 TITLE = "Context addressing, formatting and update elements touch exactly the named item"
 LEAN_MODULES = ["LenaModel.Props.C08"]
-LEAN_SOURCES = ["LenaModel/Model/C08.lean", "LenaModel/Props/C08.lean", "LenaModel/Lemmas/C08.lean",
+LEAN_SOURCES = ["LenaModel/Model/C08.lean", "LenaModel/Model/C08Spec.lean", "LenaModel/Props/C08.lean", "LenaModel/Lemmas/C08.lean",
                 "LenaModel/Lemmas/C08Fmt.lean", "LenaModel/Lemmas/C08Str.lean"]
 DRIVER = "drivers/C08.lean"
 THEOREMS = [
@@ -69,6 +72,17 @@ THEOREMS = [
     "Lena.C08.update_recursively_spec",
     "Lena.C08.set_context_plain",
     "Lena.C08.set_context_missing",
+    "Lena.C08.pieceWFB_iff",
+    "Lena.C08.illFormedB_iff",
+    "Lena.C08.strFieldsB_iff",
+    "Lena.C08.notTemplateB_iff",
+    "Lena.C08.wfPathB_iff",
+    "Lena.C08.valWFB_iff",
+    "Lena.C08.non_string_key",
+    "Lena.C08.strip_blanks",
+    "Lena.C08.value_template",
+    "Lena.C08.to_string_errors",
+    "Lena.C08.context_element",
     "Lena.C08.update_keeps_wf",
     "Lena.C08.delete_keeps_wf",
 ]
@@ -107,18 +121,48 @@ RULE = ("addr: every context over keys {a,b} of depth <= 2 with leaves {1,'b',No
 CASE_TIMEOUT = 20
 
 MISSING = object()
+RAISES = object()
 
 # ---------------------------------------------------------------------------------------------
 # wire form
 
 
-def enc(v):
+class Obj:
+    """an object of a class lena knows nothing about: str() gives `s` or raises; hashable; not JSON-serialisable"""
+
+    def __init__(self, s):
+        self.s = s
+
+    def __str__(self):
+        if self.s is None:
+            raise RuntimeError("no string representation")
+        return self.s
+
+    def __repr__(self):
+        return "<Obj %r>" % (self.s,)
+
+    def __eq__(self, other):
+        return isinstance(other, Obj) and other.s == self.s
+
+    def __hash__(self):
+        return hash(self.s)
+
+
+def enc(v, _stack=()):
+    if isinstance(v, (dict, list)):
+        if id(v) in _stack:
+            return {"py": "cycle"}          # a container that contains itself (only a broken implementation makes one)
+        _stack = _stack + (id(v),)
     if isinstance(v, dict):
-        return {"d": [[k, enc(x)] for k, x in v.items()]}
+        return {"d": [[k, enc(x, _stack)] for k, x in v.items()]}
     if isinstance(v, list):
-        return {"L": [enc(x) for x in v]}
+        return {"L": [enc(x, _stack) for x in v]}
     if v is None or isinstance(v, (bool, int, str)):
         return v
+    if isinstance(v, float):
+        return {"f": repr(v)}
+    if isinstance(v, Obj):
+        return {"o": v.s}
     return {"py": type(v).__name__}
 
 
@@ -128,10 +172,12 @@ def dec(w):
             return {k: dec(x) for k, x in w["d"]}
         if "L" in w:
             return [dec(x) for x in w["L"]]
+        if "f" in w:
+            return float(w["f"])
+        if "o" in w:
+            return Obj(w["o"])
         if w.get("py") == "set":
             return {1, 2}
-        if w.get("py") == "float":
-            return 1.5
         if w.get("py") == "tuple":
             return (1, 2)
         return object()
@@ -139,20 +185,26 @@ def dec(w):
 
 
 def modelable(w):
-    """only None/bool/int/str and string-keyed dictionaries exist in the model"""
+    """None/bool/int/str/float, objects with a known str(), lists and string-keyed dictionaries exist in the model"""
     if isinstance(w, dict):
         if "d" in w:
             return all(isinstance(k, str) and modelable(x) for k, x in w["d"])
-        return False
+        if "L" in w:
+            return all(modelable(x) for x in w["L"])
+        return "f" in w or "o" in w
     return w is None or isinstance(w, (bool, int, str))
 
 
-def strict_eq(a, b):
+def strict_eq(a, b, _depth=0):
     """equality of contexts that does not identify True with 1"""
+    if _depth > 60:
+        return False                # a cyclic structure is never equal to a reference value
     if isinstance(a, dict) and isinstance(b, dict):
-        return a.keys() == b.keys() and all(strict_eq(a[k], b[k]) for k in a)
+        return a.keys() == b.keys() and all(strict_eq(a[k], b[k], _depth + 1) for k in a)
     if isinstance(a, list) and isinstance(b, list):
-        return len(a) == len(b) and all(strict_eq(x, y) for x, y in zip(a, b))
+        return len(a) == len(b) and all(strict_eq(x, y, _depth + 1) for x, y in zip(a, b))
+    if isinstance(a, float) and isinstance(b, float):
+        return repr(a) == repr(b)
     return type(a) is type(b) and a == b
 
 
@@ -243,7 +295,10 @@ def ref_render(pieces, ctx, undefined="error"):
                 if undefined == "error":
                     return MISSING
                 v = ""
-            out.append(str(v))
+            try:
+                out.append(str(v))
+            except Exception:
+                return RAISES         # a user object whose __str__ raises: that exception leaves, nothing is demanded
     return "".join(out)
 
 
@@ -283,6 +338,10 @@ def all_paths(alpha, maxlen):
     return out
 
 
+RICH_LEAVES = (1, "b", None, False, 0, "", True, "1", -3, "None", [1, 2], [], 2.5, [{"k": 1}, "x"], Obj("b"), Obj(None), 0.0,
+               float("inf"), ["b"])
+
+
 def rand_ctx(rng, keys, depth, leaves=(1, "b", None, False, 0, "", True, "1", -3, "None")):
     d = {}
     ks = list(keys)
@@ -292,7 +351,7 @@ def rand_ctx(rng, keys, depth, leaves=(1, "b", None, False, 0, "", True, "1", -3
         if r < 0.35:
             continue
         if r < 0.7 or depth <= 1:
-            d[k] = rng.choice(leaves)
+            d[k] = copy.deepcopy(rng.choice(leaves))
         else:
             d[k] = rand_ctx(rng, keys, depth - 1, leaves)
     return d
@@ -353,6 +412,9 @@ ITEM_CTXS = [
     {"a": False},
     {"a": {"b": {}}},
     {"b": 3, "a": {"b": "two", "a": {"b": 1}}},
+    {"a": [1, "x"], "b": {"a": [{"k": 1}], "b": 2.5}},
+    {"a": Obj("x.y"), "b": Obj(None)},
+    {"a": {"b": [1, 2]}, "c": float("inf")},
 ]
 
 LITS = ["", "x_", ": !"]
@@ -375,6 +437,8 @@ def field_templates(paths, nmax):
     return out
 
 
+VALUE_TEMPLATES = ["{{a}}\n", "{{a}} ", " {{a}}", "{{ }}", "{{\ta.b\n}}", "{{a }}x", "{{  b.a.b  }}", "{{a}}}", "{{{a}}", "{{a b}}",
+                   "{{a}}\n\n", "{{}}"]
 UC_UPDATES = [
     {"v": 7}, {"v": None}, {"v": {"d": [["n", 1]]}}, {"v": {"d": [["b", {"d": [["z", "q"]]}]]}}, {"v": {"d": []}},
     {"s": "plain"}, {"s": ""},
@@ -398,22 +462,23 @@ def uc_update_str(u):
 def gen_cases(ctx):
     rng = ctx.rng
     thorough = ctx.tier == "thorough"
-    cases = []
+    ctx.exhaustive = False
     # ---- addressing -------------------------------------------------------------------------
     alpha = ["a", "b", "1"]
     for d in all_dicts(["a", "b"], [1, "b", None], 2):
-        cases.append({"op": "addr", "d": enc(d), "alpha": alpha, "maxlen": 4})
+        yield ({"op": "addr", "d": enc(d), "alpha": alpha, "maxlen": 4})
     deep = all_dicts(["a", "b"], [1, "b"], 3)
     if thorough:
         for d in deep:
-            cases.append({"op": "addr", "d": enc(d), "alpha": alpha, "maxlen": 4})
+            yield ({"op": "addr", "d": enc(d), "alpha": alpha, "maxlen": 4})
     else:
         for d in rng.sample(deep, 400):
-            cases.append({"op": "addr", "d": enc(d), "alpha": alpha, "maxlen": 4})
+            yield ({"op": "addr", "d": enc(d), "alpha": alpha, "maxlen": 4})
     for _ in range(3000 if thorough else 150):
         keys = rng.choice([["a", "b", "c"], ["a", "1", "None"], ["a", "b", "True", "x.y"]])
-        cases.append({"op": "addr", "d": enc(rand_ctx(rng, keys, rng.randint(1, 3))),
-                      "alpha": rng.sample(["a", "b", "c", "1", "None", "True", "False", "0"], 3), "maxlen": 3})
+        yield ({"op": "addr", "d": enc(rand_ctx(rng, keys, rng.randint(1, 3), RICH_LEAVES if rng.random() < 0.5 else RICH_LEAVES[:10])),
+                "alpha": rng.sample(["a", "b", "c", "1", "None", "True", "False", "0", "[1, 2]", "2.5", "['b']", "[]"], 3),
+                "maxlen": 3})
     # malformed / special key arguments
     base = enc({"a": {"b": 1, "c": {"a": 2}}, "b": 5})
     bad_keys = [{"o": 0}, {"l": ["a", 1]}, {"l": [None]}, {"l": []}, {"l": ["a", "b"]}, {"l": ["a", ""]}, {"l": [""]},
@@ -428,7 +493,7 @@ def gen_cases(ctx):
                 c = {"op": "getx", "d": d, "keys": k}
                 if dflt is not MISSING:
                     c["default"] = dflt
-                cases.append(c)
+                yield (c)
     # ---- str_to_dict / str_to_list -------------------------------------------------------------
     comp = ["a", "b", ""]
     for n in range(0, 5):
@@ -440,15 +505,18 @@ def gen_cases(ctx):
                 c = {"op": "s2d", "s": s}
                 if v is not MISSING:
                     c["value"] = v
-                cases.append(c)
+                yield (c)
     for s in ("a.b.c d", "output.changed", "x", "a b", "None.1"):
-        cases.append({"op": "s2d", "s": s})
-        cases.append({"op": "s2d", "s": s, "value": True})
+        yield ({"op": "s2d", "s": s})
+        yield ({"op": "s2d", "s": s, "value": True})
+    for s in (5, None, {"L": ["a", "b"]}, {"d": [["a", 1]]}, True, {"f": "1.5"}):
+        yield ({"op": "s2d", "s": s})
+        yield ({"op": "s2d", "s": s, "value": 1})
     # ---- format_context ---------------------------------------------------------------------
     fctxs = [enc(c) for c in ITEM_CTXS[1:]]
     fpaths = [["a"], ["b"], ["a", "b"], ["b", "a"], ["a", "b", "c"]]
     for pieces in field_templates(fpaths, 2 if not thorough else 3):
-        cases.append({"op": "format", "pieces": pieces, "ctxs": fctxs})
+        yield ({"op": "format", "pieces": pieces, "ctxs": fctxs})
     if not thorough:
         for _ in range(120):
             fs = [rng.choice(fpaths) for _ in range(3)]
@@ -457,20 +525,20 @@ def gen_cases(ctx):
                 pieces.append(["lit", rng.choice(LITS + ["a.b", "}"[:0]])])
                 pieces.append(["field", f])
             pieces = [p for p in pieces if p[1] != ""]
-            cases.append({"op": "format", "pieces": pieces, "ctxs": fctxs})
+            yield ({"op": "format", "pieces": pieces, "ctxs": fctxs})
     raw_ctxs = [enc({}), enc({"a": 1}), enc({"a": {"a": 2, "b": "s"}}), enc({"a": {"a": {"a": None}}})]
     for n in range(0, 8 if thorough else 7):
         for t in itertools.product("{}a.", repeat=n):
-            cases.append({"op": "format", "raw": "".join(t), "ctxs": raw_ctxs})
+            yield ({"op": "format", "raw": "".join(t), "ctxs": raw_ctxs})
     for n in range(0, 7 if thorough else 5):
         for t in itertools.product("{}a!:", repeat=n):
             s = "".join(t)
             if "!" in s or ":" in s:
-                cases.append({"op": "format", "raw": s, "ctxs": raw_ctxs})
+                yield ({"op": "format", "raw": s, "ctxs": raw_ctxs})
     for t in ("{{a}}}}{{{{", "{{{{a}}}}", "{{{{{{a}}}}}}", "{{a.b}}_{{a.a}}", "{{a}} {{a}} {{a}}", "a{{", "}}a", "{{}}", "{{.}}"):
-        cases.append({"op": "format", "raw": t, "ctxs": raw_ctxs})
+        yield ({"op": "format", "raw": t, "ctxs": raw_ctxs})
     for ns in ({"py": "int"}, None, {"L": []}):
-        cases.append({"op": "format", "nonstr": ns, "ctxs": []})
+        yield ({"op": "format", "nonstr": ns, "ctxs": []})
     # ---- to_string ------------------------------------------------------------------------------
     fam = all_dicts(["b", "a"], [1, True, "1"], 2)
     rng.shuffle(fam)
@@ -480,42 +548,59 @@ def gen_cases(ctx):
         vs = []
         for v in chunk[: (step if thorough else 12)]:
             vs.extend([v, scramble(v, "rev")])
-        cases.append({"op": "tostr", "vs": [enc(v) for v in vs]})
+        yield ({"op": "tostr", "vs": [enc(v) for v in vs]})
     for _ in range(400 if thorough else 60):
         v = rand_ctx(rng, ["a", "b", "c", "ab", "B", "1", "a.b"], 3, leaves=(1, True, "1", None, 0, False, "", "a", -1, {}, "null"))
         vs = [v, scramble(v, "rev"), scramble(v, "rot")] + mutants(v)[:40]
-        cases.append({"op": "tostr", "vs": [enc(x) for x in vs]})
-    cases.append({"op": "tostr", "vs": [enc({}), enc({"a": {}}), enc({"a": None}), enc({"a": "null"}), enc({"a": "{}"}),
+        yield ({"op": "tostr", "vs": [enc(x) for x in vs]})
+    yield ({"op": "tostr", "vs": [enc({}), enc({"a": {}}), enc({"a": None}), enc({"a": "null"}), enc({"a": "{}"}),
                                         enc({"a": 0}), enc({"a": False}), enc({"a": ""}), enc({"a": "0"}), enc({"": 0}),
                                         enc({"a": {"b": 1}, "b": 1}), enc({"a": {"b": 1, "b2": 1}}), enc({"a": {"b": {"b": 1}}}),
                                         enc({"a": "b", "c": "d"}), enc({"a": {"b": "c"}}), enc({"a,b": 1}), enc({"a": 1, "b": 1})]})
-    cases.append({"op": "tostr", "vs": [enc({"a": 1}), {"d": [["a", {"py": "set"}]]}, {"d": [["a", {"L": [1, 2]}]]},
+    yield ({"op": "tostr", "vs": [enc({"a": 1}), {"d": [["a", {"py": "set"}]]}, {"d": [["a", {"L": [1, 2]}]]},
                                         {"d": [["a", {"L": [1, {"d": [["b", 2], ["a", 1]]}]}]]},
-                                        {"d": [["a", {"L": [1, {"d": [["a", 1], ["b", 2]]}]}]]}]})
+                                        {"d": [["a", {"L": [1, {"d": [["a", 1], ["b", 2]]}]}]]},
+                                        {"d": [["a", {"L": [2, 1]}]]}, {"d": [["a", {"L": []}]]}, {"d": [["a", {"d": []}]]},
+                                        {"d": [["a", {"L": [{"L": [1]}, 2]}]]}, {"d": [["a", {"L": [{"L": [1, 2]}]}]]},
+                                        {"d": [["a", {"f": "1.0"}]]}, {"d": [["a", {"f": "inf"}]]}, {"d": [["a", {"f": "-inf"}]]},
+                                        {"d": [["a", {"f": "2.5"}]]}, {"d": [["a", "2.5"]]}, {"d": [["a", {"o": "x"}]]},
+                                        {"d": [["a", {"L": [1, {"o": None}]}]]}, {"L": [1, 2]}, {"L": []}, 1, "1", None]})
+    for _ in range(300 if thorough else 40):
+        v = rand_ctx(rng, ["a", "b", "c", "B"], 3, leaves=(1, True, "1", None, [1, 2], [], [{"b": 1, "a": 2}, 1], 2.5, 1.0, {}, "a"))
+        vs = [v, scramble(v, "rev"), scramble(v, "rot")] + mutants(v)[:25]
+        yield ({"op": "tostr", "vs": [enc(x) for x in vs]})
+    # the well-formedness test of the theorems (no key twice), on wire values that no Python dict can hold
+    yield ({"op": "wfdup", "vs": [{"d": [["a", 1], ["a", 2]]}, {"d": [["a", 1], ["b", {"d": [["c", 1], ["c", 1]]}]]},
+                                  {"d": [["a", {"L": [1, {"d": [["x", 1], ["y", 2], ["x", 3]]}]}]]}, {"d": [["a", 1], ["b", 2]]},
+                                  {"L": [{"d": [["k", 1]]}, {"d": [["k", 2]]}]}, {"d": []}, 5]})
     # ---- update_recursively -------------------------------------------------------------------
     small = all_dicts(["a", "b"], [1, None], 2)
     for _ in range(2500 if thorough else 250):
         d, o = rng.choice(small), rng.choice(small)
-        cases.append({"op": "upd", "d": enc(d), "other": {"v": enc(o)}})
+        yield ({"op": "upd", "d": enc(d), "other": {"v": enc(o)}})
     for d in (enc({"a": 1}), enc({}), 5):
         for o in ({"s": "a.b"}, {"s": "a"}, {"s": ""}, {"s": "a.b.c"}, {"v": 5}, {"v": enc({"a": {"b": 2}})}, {"v": None}):
             for v in (MISSING, True, enc({"z": 1})):
                 c = {"op": "upd", "d": d, "other": o}
                 if v is not MISSING:
                     c["value"] = v
-                cases.append(c)
+                yield (c)
     # ---- format_update_with / SetContext ---------------------------------------------------------
     fuw_values = [5, None, "plain", enc({"n": 1}), enc({"b": {"z": 1}}), enc({}), {"pieces": [["field", ["a"]]]},
                   {"pieces": [["lit", "x_"], ["field", ["a", "b"]]]}, {"pieces": [["field", ["b"]], ["lit", "."], ["field", ["a", "b"]]]},
                   {"raw": "}}{{"}, {"raw": "{a}"}, {"raw": "{{a"}, {"raw": "}}{{{{a}}"}, {"raw": "{{a!r}}"}]
+    for key in (5, None, {"L": ["a"]}, True):
+        for v in fuw_values[:8]:
+            yield ({"op": "fuw", "key": key, "value": v, "d": enc(ITEM_CTXS[4])})
+            yield ({"op": "setctx", "key": key, "value": v, "ctxs": [enc(ITEM_CTXS[4])]})
     for key in ("o", "a.b", "b.a.c", "a", "", "a..b", "a."):
         for v in fuw_values:
             for d in ITEM_CTXS[1:9]:
-                cases.append({"op": "fuw", "key": key, "value": v, "d": enc(d)})
-            cases.append({"op": "fuw", "key": key, "value": v, "d": 5})
+                yield ({"op": "fuw", "key": key, "value": v, "d": enc(d)})
+            yield ({"op": "fuw", "key": key, "value": v, "d": 5})
     for key in ("o", "a.b", "", "a"):
         for v in fuw_values:
-            cases.append({"op": "setctx", "key": key, "value": v, "ctxs": [enc(c) for c in ITEM_CTXS[1:8]]})
+            yield ({"op": "setctx", "key": key, "value": v, "ctxs": [enc(c) for c in ITEM_CTXS[1:8]]})
     # ---- UpdateContext: the option matrix --------------------------------------------------------
     items = [None if c is None else enc(c) for c in ITEM_CTXS]
     for sub in UC_SUBCONTEXTS:
@@ -529,22 +614,30 @@ def gen_cases(ctx):
                                      "recursively": rec}
                                 if dflt is not MISSING:
                                     a["default"] = enc(dflt)
-                                cases.append({"op": "uc", "args": a, "items": items})
+                                yield ({"op": "uc", "args": a, "items": items})
+    # templates at the edge of "{{key}}" (blanks, text after the braces): /verif/notes/C08_defect_2
+    for t in VALUE_TEMPLATES + ["{{ a.b }}", "{{a.b}}"]:
+        for value in (False, True):
+            for dflt, skip, rais in ((MISSING, False, False), (0, False, False), (MISSING, True, False), (MISSING, False, True)):
+                a = {"subcontext": "o", "update": {"s": t}, "value": value, "skip": skip, "raise": rais, "recursively": True}
+                if dflt is not MISSING:
+                    a["default"] = dflt
+                yield ({"op": "uc", "args": a, "items": items})
     for sub in (None, 5, "", {"L": ["a"]}, "a..b", ".", "a."):
         for upd in ({"v": 1}, {"pieces": [["field", ["a"]]]}, {"s": "{{a"}):
             for value, dflt, skip in ((False, MISSING, False), (True, 0, False), (True, 0, True)):
                 a = {"subcontext": sub, "update": upd, "value": value, "skip": skip, "raise": False, "recursively": True}
                 if dflt is not MISSING:
                     a["default"] = dflt
-                cases.append({"op": "uc", "args": a, "items": items[:6]})
+                yield ({"op": "uc", "args": a, "items": items[:6]})
     # mutable defaults / updates that are lists (not sent to the model)
     for dflt in ({"L": [1, {"d": [["k", 1]]}]}, enc({"scale": "lin"})):
         for upd in ({"pieces": [["field", ["plot", "style"]]]}, {"pieces": [["field", ["a"]]]}):
-            cases.append({"op": "uc", "args": {"subcontext": "output.style", "update": upd, "value": True, "default": dflt,
+            yield ({"op": "uc", "args": {"subcontext": "output.style", "update": upd, "value": True, "default": dflt,
                                                "skip": False, "raise": False, "recursively": True},
                           "items": [None, enc({"variable": "x"}), enc({"plot": {"style": {"scale": "log"}}}),
                                     {"d": [["a", {"L": [1, 2]}]]}, enc({"a": {"deep": {"er": 1}}})]})
-    cases.append({"op": "uc", "args": {"subcontext": "x", "update": {"v": {"L": [1, {"d": [["k", 1]]}]}}, "value": False,
+    yield ({"op": "uc", "args": {"subcontext": "x", "update": {"v": {"L": [1, {"d": [["k", 1]]}]}}, "value": False,
                                        "skip": False, "raise": False, "recursively": True}, "items": items[:4]})
     for _ in range(3000 if thorough else 200):
         sub = ".".join(rng.choice(["a", "b", "c"]) for _ in range(rng.randint(1, 3)))
@@ -568,20 +661,27 @@ def gen_cases(ctx):
         if rng.random() < 0.3:
             a["default"] = enc(rng.choice([0, None, {"dd": 1}, rand_ctx(rng, ["a", "b"], 2)]))
         its = [None] + [enc(rand_ctx(rng, ["a", "b", "c"], 3)) for _ in range(6)]
-        cases.append({"op": "uc", "args": a, "items": its})
+        yield ({"op": "uc", "args": a, "items": its})
     # ---- DeleteContext ---------------------------------------------------------------------------
     for p in all_paths(["a", "b"], 3):
         forms = [{"s": ".".join(p)}, {"l": list(p)}, {"t": list(p)}]
         for f in forms:
-            cases.append({"op": "dc", "key": f, "items": items})
+            yield ({"op": "dc", "key": f, "items": items})
     for s in ("a..b", ".", "a.", ".a", "c", "a.b.c.a"):
-        cases.append({"op": "dc", "key": {"s": s}, "items": items})
+        yield ({"op": "dc", "key": {"s": s}, "items": items})
+    for o in (5, None, {"d": [["a", {"d": [["b", 1]]}]]}, True, {"f": "1.5"}):
+        yield ({"op": "dc", "key": {"o": o}, "items": items[:5]})
+    # ---- Context -----------------------------------------------------------------------------------
+    for i in range(0, len(items), 4):
+        yield ({"op": "context", "items": items[i:i + 4], "names": ["a", "b", "zz", "_a", "_private", "__x__", ""]})
+    for _ in range(400 if thorough else 40):
+        its = [None] + [enc(rand_ctx(rng, ["a", "b", "_c", "B"], 3, leaves=(1, True, "s", None, [1, 2], [], 2.5, {}, [{"b": 1, "a": 2}])))
+                        for _ in range(4)]
+        yield ({"op": "context", "items": its, "names": ["a", "b", "_c", "q"]})
     for _ in range(1500 if thorough else 100):
         p = [rng.choice(["a", "b", "c"]) for _ in range(rng.randint(0, 4))]
         its = [None] + [enc(rand_ctx(rng, ["a", "b", "c"], 3)) for _ in range(6)]
-        cases.append({"op": "dc", "key": rng.choice([{"s": ".".join(p)}, {"l": p}, {"t": p}]), "items": its})
-    ctx.exhaustive = False
-    return cases
+        yield ({"op": "dc", "key": rng.choice([{"s": ".".join(p)}, {"l": p}, {"t": p}]), "items": its})
 
 
 # ---------------------------------------------------------------------------------------------
@@ -634,15 +734,20 @@ def _code(thunk, ref):
     return "r:" + _wjson(r)
 
 
-def _poke(v):
-    """change every dictionary and list reachable from v in place"""
+def _poke(v, _seen=None):
+    """change every dictionary and list reachable from v in place (each once, also through cycles)"""
+    _seen = set() if _seen is None else _seen
+    if id(v) in _seen:
+        return
     if isinstance(v, dict):
+        _seen.add(id(v))
         for x in list(v.values()):
-            _poke(x)
+            _poke(x, _seen)
         v["☠"] = 1
     elif isinstance(v, list):
-        for x in v:
-            _poke(x)
+        _seen.add(id(v))
+        for x in list(v):
+            _poke(x, _seen)
         v.append("☠")
 
 
@@ -685,7 +790,7 @@ def run_impl(case):
             return _outcome(lambda: lc.get_recursively(d, keys, dec(case["default"])))
         return _outcome(lambda: lc.get_recursively(d, keys))
     if op == "s2d":
-        s = case["s"]
+        s = case["s"] if isinstance(case["s"], str) else dec(case["s"])
         res = {"list": _outcome(lambda: lc.str_to_list(s))}
         if "value" in case:
             v = dec(case["value"])
@@ -734,7 +839,7 @@ def run_impl(case):
         v = _template_arg(case["value"])
         vsnap = copy.deepcopy(v)
         try:
-            lc.format_update_with(case["key"], v, d)
+            lc.format_update_with(_key_arg(case["key"]), v, d)
         except Exception as e:
             return {"e": exc_name(e), "d": enc(d)}
         return {"r": enc(d), "value_unchanged": strict_eq(v, vsnap)}
@@ -742,10 +847,11 @@ def run_impl(case):
         import lena.meta
         v = _template_arg(case["value"])
         try:
-            el = lena.meta.SetContext(case["key"], v)
+            el = lena.meta.SetContext(_key_arg(case["key"]), v)
         except Exception as e:
             return {"init": exc_name(e)}
-        res = {"init": "ok", "get0": _outcome(el._get_context), "steps": []}
+        res = {"init": "ok", "get0": _outcome(el._get_context), "steps": [],
+               "repr": _outcome(lambda: repr(el)), "eq": _outcome(lambda: (el == lena.meta.SetContext(_key_arg(case["key"]), v), el == 5))}
         for w in case["ctxs"]:
             c = dec(w)
             snap = copy.deepcopy(c)
@@ -769,7 +875,43 @@ def run_impl(case):
         return _run_uc(case)
     if op == "dc":
         return _run_dc(case)
+    if op == "context":
+        return _run_context(case)
+    if op == "wfdup":
+        return {}
     raise ValueError(op)
+
+
+def _key_arg(k):
+    return k if isinstance(k, str) else dec(k)
+
+
+def _run_context(case):
+    import lena.context as lc
+    el = lc.Context()
+    calls, attrs, reprs = [], [], []
+    for w in case["items"]:
+        data = ["payload"]
+        c = dec(w) if w is not None else None
+        value = (data, c) if c is not None else data
+        try:
+            r = el(value)
+            ok = isinstance(r, tuple) and len(r) == 2 and isinstance(r[1], lc.Context)
+            calls.append({"r": enc(dict(r[1])) if ok else None, "data_ok": ok and r[0] is data, "is_context": ok})
+        except Exception as e:
+            calls.append({"e": exc_name(e)})
+        cc = lc.Context(c if c is not None else {})
+        row = []
+        for n in case["names"]:
+            ref = (c or {}).get(n, MISSING)
+            try:
+                got = getattr(cc, n)
+                row.append({"r": enc(got), "same": ref is not MISSING and got is ref})
+            except Exception as e:
+                row.append({"e": exc_name(e)})
+        attrs.append(row)
+        reprs.append(_outcome(lambda: repr(cc)))
+    return {"calls": calls, "attrs": attrs, "reprs": reprs}
 
 
 def _uc_build(case):
@@ -805,6 +947,11 @@ def _run_uc(case):
         el = build()
     except Exception as e:
         return {"init": exc_name(e)}
+    import lena.context as _lc
+    extra = {"repr": _outcome(lambda: repr(el)),
+             "eq": _outcome(lambda: (el == build(), el == 5, el != build(), el == _lc.UpdateContext("zz", 1),
+                                     el == _lc.UpdateContext("zz", "{{a}}", value=True, default=[0]),
+                                     el == _lc.UpdateContext("zz", "{{a}}", value=True, default=0)))}
     sub = case["args"]["subcontext"]
     subpath = sub.split(".") if isinstance(sub, str) else []
     src = _src_path(case)
@@ -855,11 +1002,13 @@ def _run_uc(case):
                 leaks.append("second-call")
         rec["leaks"] = leaks
         calls.append(rec)
-    return {"init": "ok", "calls": calls}
+    return {"init": "ok", "calls": calls, "extra": extra}
 
 
 def _dc_key(case):
     k = case["key"]
+    if "o" in k:
+        return _key_arg(k["o"]), None
     if "s" in k:
         return k["s"], (k["s"].split(".") if k["s"] != "" else [])
     if "l" in k:
@@ -900,8 +1049,83 @@ def _run_dc(case):
 
 
 def _case_modelable(case):
-    s = json.dumps(case)
-    return '"L"' not in s and '"py"' not in s
+    return '"py"' not in json.dumps(case)
+
+
+def _simple_str(x):
+    return all(32 <= ord(c) < 127 and c not in "'\"\\" for c in x)
+
+
+def ref_str_modelled(v, top=True):
+    """does the model transcribe str(v): a scalar with a working str(); a container whose strings repr() leaves alone"""
+    if isinstance(v, dict):
+        return all(_simple_str(k) and ref_str_modelled(x, False) for k, x in v.items())
+    if isinstance(v, list):
+        return all(ref_str_modelled(x, False) for x in v)
+    if isinstance(v, Obj):
+        return top and v.s is not None
+    if isinstance(v, str):
+        return top or _simple_str(v)
+    return True
+
+
+def piece_wf(pieces):
+    for kind, x in pieces:
+        if kind == "lit":
+            if "{" in x or "}" in x:
+                return False
+        elif not wf_path(x) or any(c in k for k in x for c in "{}!:"):
+            return False
+    return True
+
+
+def wire_wf(w):
+    """no key twice in any dictionary of a wire value"""
+    if isinstance(w, dict) and "d" in w:
+        keys = [k for k, _ in w["d"]]
+        return len(set(keys)) == len(keys) and all(wire_wf(x) for _, x in w["d"])
+    if isinstance(w, dict) and "L" in w:
+        return all(wire_wf(x) for x in w["L"])
+    return True
+
+
+def _spec_ctx_requests(case):
+    """requests that execute the specification-side definitions of Model/C08Spec.lean on this case"""
+    op = case["op"]
+    if op == "format" and "pieces" in case:
+        return [{"op": "spec", "what": "template", "pieces": case["pieces"], "ctxs": case["ctxs"]}]
+    if op == "uc":
+        r = [{"op": "spec", "what": "illformed", "args": _uc_model_args(case)}]
+        u = case["args"]["update"]
+        if "pieces" in u:
+            r.append({"op": "spec", "what": "template", "pieces": u["pieces"],
+                      "ctxs": [w if w is not None else {"d": []} for w in case["items"]]})
+        return r
+    if op == "fuw" and isinstance(case["key"], str) and isinstance(case["d"], dict) and "d" in case["d"]:
+        v = case["value"]
+        r = [{"op": "spec", "what": "nottemplate", "vs": [_tmpl_wire(v)]}]
+        if not (isinstance(v, dict) and ("pieces" in v or "raw" in v)) and case["key"]:
+            r.append({"op": "spec", "what": "ucset", "d": case["d"], "path": case["key"].split("."), "u": v})
+        return r
+    if op == "tostr":
+        vs = [w for w in case["vs"] if modelable(w)]
+        return [{"op": "spec", "what": "wf", "vs": vs}, {"op": "spec", "what": "str", "vs": vs}]
+    if op == "wfdup":
+        return [{"op": "spec", "what": "wf", "vs": case["vs"]}]
+    if op == "addr":
+        return [{"op": "spec", "what": "wfpath", "paths": _paths_of(case)}]
+    if op == "dc":
+        _, path = _dc_key(case)
+        if path is not None:
+            return [{"op": "spec", "what": "wfpath", "paths": [path]}]
+    return []
+
+
+def _uc_model_args(case):
+    a = _uc_wire_args(case)
+    if not (isinstance(a["subcontext"], str) or a["subcontext"] is None):
+        a["subcontext"] = None
+    return a
 
 
 def _uc_wire_args(case):
@@ -919,11 +1143,12 @@ def _tmpl_wire(v):
 
 
 def model_requests(case):
-    if not _case_modelable(case):
-        if case["op"] == "tostr":
-            vs = [w for w in case["vs"] if modelable(w)]
-            return [{"op": "to_string", "vs": vs}, {"op": "pyeq", "vs": vs}]
+    if not _case_modelable(case) and case["op"] != "tostr":
         return []
+    return _main_requests(case) + _spec_ctx_requests(case)
+
+
+def _main_requests(case):
     op = case["op"]
     if op == "addr":
         r = {"op": "addr", "d": case["d"], "alpha": case["alpha"], "maxlen": case["maxlen"], "default": enc(DFLT)}
@@ -946,7 +1171,12 @@ def model_requests(case):
         t = template_of(case["pieces"]) if "pieces" in case else case["raw"]
         return [{"op": "format", "t": t, "ctxs": case["ctxs"]}]
     if op == "tostr":
-        return [{"op": "to_string", "vs": case["vs"]}, {"op": "pyeq", "vs": case["vs"]}]
+        vs = [w for w in case["vs"] if modelable(w)]
+        return [{"op": "to_string", "vs": vs}, {"op": "pyeq", "vs": vs}]
+    if op == "context":
+        return [{"op": "context", "items": case["items"], "names": case["names"]}]
+    if op == "wfdup":
+        return []
     if op == "upd":
         r = {"op": "update_recursively", "d": case["d"], "other": case["other"]}
         if "value" in case:
@@ -957,13 +1187,10 @@ def model_requests(case):
     if op == "setctx":
         return [{"op": "setctx", "key": case["key"], "value": _tmpl_wire(case["value"]), "ctxs": case["ctxs"]}]
     if op == "uc":
-        a = _uc_wire_args(case)
-        if not (isinstance(a["subcontext"], str) or a["subcontext"] is None):
-            a["subcontext"] = None
-        return [{"op": "uc", "args": a, "items": case["items"]}]
+        return [{"op": "uc", "args": _uc_model_args(case), "items": case["items"]}]
     if op == "dc":
         k = case["key"]
-        return [{"op": "dc", "key": k if "t" not in k else {"l": k["t"]}, "items": case["items"]}]
+        return [{"op": "dc", "key": {"o": 0} if "o" in k else k if "t" not in k else {"l": k["t"]}, "items": case["items"]}]
     raise ValueError(op)
 
 
@@ -984,6 +1211,97 @@ def compare(case, res, replies):
     for m in replies:
         if isinstance(m, dict) and "err" in m:
             return f"model driver error: {m['err']}"
+    n = len(_main_requests(case)) if (_case_modelable(case) or case["op"] == "tostr") else 0
+    return _compare_main(case, res, replies[:n]) or _compare_spec(case, res, replies[n:])
+
+
+def _compare_spec(case, res, replies):
+    """the specification-side definitions (Model/C08Spec.lean) against independent Python references"""
+    if not replies:
+        return None
+    op = case["op"]
+
+    def template(m, pieces, ctxs):
+        if m["template"] != template_of(pieces):
+            return f"Lean templateString {m['template']!r} differs from {template_of(pieces)!r}"
+        if m["wf"] != piece_wf(pieces):
+            return f"Lean pieceWFB = {m['wf']} on {pieces}, Python reference {piece_wf(pieces)}"
+        for w, mc in zip(ctxs, m["ctxs"]):
+            c = dec(w)
+            if not isinstance(c, dict):
+                continue
+            fields = [x for k, x in pieces if k == "field"]
+            present = all(ref_get(c, f) is not MISSING for f in fields)
+            strm = all(ref_get(c, f) is MISSING or ref_str_modelled(ref_get(c, f)) for f in fields)
+            if mc["present"] != present or mc["str"] != strm:
+                return f"Lean fieldsPresent/strFieldsB = {mc['present']}/{mc['str']} on {pieces}, {c!r}; Python {present}/{strm}"
+            if strm and mc["text"] != ref_render(pieces, c, "empty"):
+                return f"Lean renderSpec = {mc['text']!r} on {pieces}, {c!r}; Python reference {ref_render(pieces, c, 'empty')!r}"
+        return None
+
+    if op == "format":
+        return template(replies[0], case["pieces"], case["ctxs"])
+    if op == "uc":
+        exp = _uc_expect_init(case)
+        if exp == "ok" or "ok" not in exp:
+            if replies[0]["r"] != (exp != "ok"):
+                return f"Lean illFormedB = {replies[0]['r']} on {case['args']}, Python reference: {exp}"
+        a = case["args"]
+        n_active = int("default" in a) + int(bool(a.get("skip"))) + int(bool(a.get("raise")))
+        if replies[0]["n"] != n_active:
+            return f"Lean nActive = {replies[0]['n']}, Python {n_active}"
+        if len(replies) > 1:
+            return template(replies[1], a["update"]["pieces"], [w if w is not None else {"d": []} for w in case["items"]])
+        return None
+    if op == "fuw":
+        v = _template_arg(case["value"])
+        want = not (isinstance(v, str) and "{" in v)
+        if replies[0]["r"] != [want]:
+            return f"Lean notTemplateB = {replies[0]['r']} on {v!r}, Python {want}"
+        if len(replies) > 1:
+            m = replies[1]
+            d, path, u = dec(case["d"]), case["key"].split("."), dec(case["value"])
+            refs = {"rec": ref_set(copy.deepcopy(d), path, u, True), "plain": ref_set(copy.deepcopy(d), path, u, False),
+                    "del": ref_del(copy.deepcopy(d), path)}
+            nest = u
+            for k in reversed(path):
+                nest = {k: nest}
+            refs["nest"] = nest
+            sub = d.get(path[0], MISSING)
+            refs["sub"] = sub if isinstance(sub, dict) else {}
+            for k, ref in refs.items():
+                if not strict_eq(dec(m[k]), ref):
+                    return f"Lean spec '{k}' (ucSet/delPath/nestPath/subDict) = {dec(m[k])!r} on {d!r}, {path}, {u!r}; Python {ref!r}"
+        return None
+    if op in ("tostr", "wfdup"):
+        vs = [w for w in case["vs"] if modelable(w)]
+        want = [wire_wf(w) for w in vs]
+        if replies[0]["r"] != want:
+            return f"Lean valWFB = {replies[0]['r']}, Python reference {want} on {vs}"
+        if op == "tostr":
+            for w, m in zip(vs, replies[1]["r"]):
+                v = dec(w)
+                if (m is not None) != ref_str_modelled(v):
+                    return f"Lean pyStrVal defined = {m is not None} on {v!r}, Python reference {ref_str_modelled(v)}"
+                if m is not None and m != str(v):
+                    return f"Lean pyStrVal = {m!r} on {v!r}, Python str() = {str(v)!r}"
+        return None
+    if op == "addr":
+        want = [wf_path(p) for p in _paths_of(case)]
+        if replies[0]["r"] != want:
+            return f"Lean wfPathB differs from the Python reference on {case['alpha']}"
+        return None
+    if op == "dc":
+        _, path = _dc_key(case)
+        if replies[0]["r"] != [wf_path(path)]:
+            return f"Lean wfPathB {replies[0]['r']} on {path}"
+        return None
+    return None
+
+
+def _compare_main(case, res, replies):
+    if not replies:
+        return None
     op = case["op"]
     if op == "addr":
         lines = replies[0]["r"]
@@ -1000,7 +1318,8 @@ def compare(case, res, replies):
         msg = _cmp_out("str_to_dict", res["dict"], replies[0])
         if msg:
             return msg
-        if res["list"].get("r") != {"L": replies[1]["r"]}:
+        ml = {"r": {"L": replies[1]["r"]}} if "r" in replies[1] else replies[1]
+        if res["list"] != ml:
             return f"str_to_list: impl {res['list']} vs model {replies[1]}"
         return None
     if op == "format":
@@ -1017,7 +1336,7 @@ def compare(case, res, replies):
     if op == "tostr":
         impl = [r for w, r in zip(case["vs"], res["r"]) if modelable(w)]
         for i, (a, b) in enumerate(zip(impl, replies[0]["r"])):
-            if a != {"r": b}:
+            if a != b:
                 return f"to_string #{i}: impl {a} vs model {b!r}"
         # the model's notion of equal dictionaries (pyEq, proved equivalent to DictEq) against Python's
         vs = [dec(w) for w in case["vs"] if modelable(w)]
@@ -1028,6 +1347,24 @@ def compare(case, res, replies):
         return None
     if op in ("upd", "fuw"):
         return _cmp_out(op, {k: v for k, v in res.items() if k in ("r", "e")}, replies[0])
+    if op == "context":
+        m = replies[0]
+        for i, (w, a, b) in enumerate(zip(case["items"], res["calls"], m["calls"])):
+            if w is None:
+                continue            # a value without context: not modelled
+            msg = _cmp_out(f"Context.__call__ on item {i}", {"e": a["e"]} if "e" in a else {"r": a["r"]}, b)
+            if msg:
+                return msg
+        for i, (ra, rb) in enumerate(zip(res["attrs"], m["attrs"])):
+            for n, a, b in zip(case["names"], ra, rb):
+                msg = _cmp_out(f"Context.{n} on item {i}", {k: v for k, v in a.items() if k in ("r", "e")}, b)
+                if msg:
+                    return msg
+        for i, (a, b) in enumerate(zip(res["reprs"], m["reprs"])):
+            msg = _cmp_out(f"repr(Context) of item {i}", a, b)
+            if msg:
+                return msg
+        return None
     if op == "setctx":
         m = replies[0]
         if res["init"] != m["init"]:
@@ -1048,6 +1385,8 @@ def compare(case, res, replies):
         return None
     if op in ("uc", "dc"):
         m = replies[0]
+        if m.get("init") == "unmodelled":
+            return None
         if res["init"] != m.get("init", "ok"):
             return f"{op} construction: impl {res['init']} vs model {m.get('init')}"
         if res["init"] != "ok":
@@ -1096,6 +1435,14 @@ def _expect_get(d, path, default, res, what):
     return None
 
 
+def _safe_str(x):
+    """str(x), or None when it raises (contains then answers False)"""
+    try:
+        return str(x)
+    except Exception:
+        return None
+
+
 def _oracle_addr(case, res):
     d = dec(case["d"])
     if not res["unchanged"]:
@@ -1122,7 +1469,7 @@ def _oracle_addr(case, res):
             want = True
         else:
             parent = ref_get(d, p[:-1])
-            want = ref is not MISSING or (parent is not MISSING and not isinstance(parent, dict) and str(parent) == p[-1])
+            want = ref is not MISSING or (parent is not MISSING and not isinstance(parent, dict) and _safe_str(parent) == p[-1])
         c = parts[2 * len(variants)]
         if c != ("T" if want else "F"):
             return (f"contains({d!r}, {'.'.join(p)!r}) = {c}, expected {want} "
@@ -1161,6 +1508,13 @@ def _oracle_getx(case, res):
 
 def _oracle_s2d(case, res):
     s = case["s"]
+    if not isinstance(s, str):
+        # "a malformed argument by LenaTypeError" (/verif/notes/C08_defect_1)
+        if res["list"].get("e") != "LenaTypeError":
+            return f"str_to_list({dec(s)!r}): not a string, expected LenaTypeError, got {res['list']}"
+        if res["dict"].get("e") != "LenaTypeError":
+            return f"str_to_dict({dec(s)!r}, ..): not a string, expected LenaTypeError, got {res['dict']}"
+        return None
     want_list = [] if s == "" else s.split(".")
     if res["list"] != {"r": {"L": want_list}}:
         return f"str_to_list({s!r}) = {res['list']}, expected {want_list}"
@@ -1225,6 +1579,8 @@ def _oracle_format(case, res):
         want = ref_render(pieces, ctx)
         if not c["unchanged"]:
             return f"format_context({t!r})({ctx!r}) changed the context"
+        if want is RAISES:
+            continue
         if want is MISSING:
             if c.get("e") != "LenaKeyError":
                 return f"format_context({t!r})({ctx!r}): a field is absent, expected LenaKeyError, got {c}"
@@ -1263,7 +1619,7 @@ def _serializable(v):
         return all(_serializable(x) for x in v.values())
     if isinstance(v, list):
         return all(_serializable(x) for x in v)
-    return v is None or isinstance(v, (bool, int, str))
+    return v is None or isinstance(v, (bool, int, str, float))
 
 
 def _oracle_upd(case, res):
@@ -1317,7 +1673,7 @@ def _render_value(v, d):
         if not isinstance(d, dict):
             return "LenaTypeError", None
         r = ref_render(v["pieces"], d)
-        return ("LenaKeyError", None) if r is MISSING else ("ok", r)
+        return ("LenaKeyError", None) if r is MISSING else ("any", None) if r is RAISES else ("ok", r)
     if isinstance(v, dict) and "raw" in v:
         t = v["raw"]
         if "{" not in t:
@@ -1344,6 +1700,8 @@ def _oracle_fuw(case, res):
         return None
     if kind != "ok":
         return None if res.get("e") == kind else f"{what}: expected {kind}, got {res}"
+    if not isinstance(key, str):
+        return None if res.get("e") == "LenaTypeError" else f"{what}: the key is not a string, expected LenaTypeError, got {res}"
     path = key.split(".") if key else []
     if not path:
         return None if res.get("e") == "LenaValueError" else f"{what}: empty key, expected LenaValueError, got {res}"
@@ -1363,6 +1721,17 @@ def _oracle_setctx(case, res):
     key = case["key"]
     v = case["value"]
     what = f"SetContext({key!r}, {_template_arg(v)!r})"
+    if not isinstance(key, str):
+        allowed = ("ok", "LenaTypeError", "LenaValueError", "LenaKeyError", "Other:ValueError")
+        if res["init"] not in allowed:
+            return f"{what}: the key is not a string, expected LenaTypeError, got {res['init']} at construction"
+        kind0, _ = _render_value(v, {})
+        if kind0 == "ok" and res["init"] != "LenaTypeError":
+            return f"{what}: the key is not a string, expected LenaTypeError at construction, got {res['init']}"
+        for st in res.get("steps", []):
+            if st["set"] not in allowed:
+                return f"{what}._set_context raised {st['set']}"
+        return None
     path = key.split(".") if key else []
     kind0, _ = _render_value(v, {})
     if res["init"] != "ok":
@@ -1428,7 +1797,10 @@ def _uc_expect_init(case):
             problems.add("LenaValueError")
     else:
         s = uc_update_str(u)
-        single = ("pieces" in u and len(u["pieces"]) == 1 and u["pieces"][0][0] == "field") or s == "{{ a.b }}"
+        # "braces can be only the first two and the last two symbols of update", "a non-empty single expression"
+        body = s[2:-2]
+        single = len(s) >= 5 and s.startswith("{{") and s.endswith("}}") and "{" not in body and "}" not in body \
+            and body.strip() != ""
         if a.get("value"):
             if not single:
                 problems.add("LenaValueError")
@@ -1453,9 +1825,9 @@ def _uc_expect_update(case, ctx):
         return ("set", dec(u["v"]))
     if a.get("value"):
         s = uc_update_str(u)
-        path = s[2:-2].split(".")
+        path = s[2:-2].strip().split(".")       # blanks around the key are not a part of it (/verif/notes/C08_defect_2)
         if not wf_path(path):
-            return ("any",)          # e.g. '{{ a.b }}': the key ' a.b ' (with the blanks) is looked up
+            return ("any",)
         v = ref_get(ctx, path)
         if v is not MISSING:
             return ("set", copy.deepcopy(v))
@@ -1472,12 +1844,16 @@ def _uc_expect_update(case, ctx):
         pieces = [["field", ["a"]], ["field", ["b"]]]
     elif u["s"] == "{{a}}x":
         pieces = [["field", ["a"]], ["lit", "x"]]
-    elif u["s"] == "{{ a.b }}":
+    elif u["s"] in ("{{ a.b }}", "{{a.b}}", "{{\ta.b\n}}"):
         pieces = [["field", ["a", "b"]]]
+    elif u["s"] == "{{  b.a.b  }}":
+        pieces = [["field", ["b", "a", "b"]]]
     else:
         return ("any",)
     strict = a.get("skip") or a.get("raise")
     r = ref_render(pieces, ctx, "error" if strict else "empty")
+    if r is RAISES:
+        return ("any",)
     if r is MISSING:
         return ("skip",) if a.get("skip") else ("raise", "LenaKeyError")
     return ("set", r)
@@ -1502,7 +1878,7 @@ def _oracle_uc(case, res):
         item = f"value with context {ctx!r}" if ctx is not None else "value without context"
         e = _uc_expect_update(case, base)
         if e[0] == "any":
-            if c.get("e") not in (None, "LenaKeyError"):
+            if c.get("e") not in (None, "LenaKeyError", "Other:RuntimeError"):
                 return f"{what} on {item} raised {c['e']}"
             continue
         if e[0] == "raise":
@@ -1535,6 +1911,10 @@ def _oracle_uc(case, res):
 def _oracle_dc(case, res):
     key, path = _dc_key(case)
     what = f"DeleteContext({key!r})"
+    if path is None:
+        # "a malformed argument by LenaTypeError/LenaValueError" (/verif/notes/C08_defect_1)
+        return None if res["init"] in ("LenaTypeError", "LenaValueError") else \
+            f"{what}: the key is neither a string nor a list/tuple, expected LenaTypeError, got {res['init']}"
     if res["init"] != "ok":
         return f"{what} raised {res['init']} at construction"
     for w, c in zip(case["items"], res["calls"]):
@@ -1556,7 +1936,34 @@ def _oracle_dc(case, res):
     return None
 
 
-_ORACLES = {"addr": _oracle_addr, "getx": _oracle_getx, "s2d": _oracle_s2d, "format": _oracle_format, "tostr": _oracle_tostr,
+def _oracle_context(case, res):
+    import json as _json
+    for w, c, row, rp in zip(case["items"], res["calls"], res["attrs"], res["reprs"]):
+        ctx = dec(w) if w is not None else None
+        if ctx is not None:
+            # "If the value is a (data, context) pair, convert its context part to Context"
+            if "e" in c:
+                return f"Context()((data, {ctx!r})) raised {c['e']}"
+            if not c["is_context"] or not c["data_ok"] or not strict_eq(dec(c["r"]), ctx):
+                return f"Context()((data, {ctx!r})) gives {c}"
+        base = ctx or {}
+        for n, a in zip(case["names"], row):
+            if n.startswith("_"):
+                if a.get("e") != "Other:AttributeError":
+                    return f"Context({base!r}).{n}: a private name, expected AttributeError, got {a}"
+            elif n in base:
+                if "e" in a or not a.get("same"):
+                    return f"Context({base!r}).{n} = {a}, expected the item itself"
+            elif a.get("e") != "LenaAttributeError":
+                return f"Context({base!r}).{n}: missing, expected LenaAttributeError, got {a}"
+        if _serializable(base):
+            want = _json.dumps(base, sort_keys=True, indent=4)
+            if rp != {"r": want}:
+                return f"repr(Context({base!r})) = {rp}, expected json.dumps(sort_keys=True, indent=4)"
+    return None
+
+
+_ORACLES = {"context": _oracle_context, "wfdup": lambda case, res: None, "addr": _oracle_addr, "getx": _oracle_getx, "s2d": _oracle_s2d, "format": _oracle_format, "tostr": _oracle_tostr,
             "upd": _oracle_upd, "fuw": _oracle_fuw, "setctx": _oracle_setctx, "uc": _oracle_uc, "dc": _oracle_dc}
 
 
@@ -1571,7 +1978,7 @@ def nontrivial(case, res):
     op = case["op"]
     if op == "addr":
         return any(rec.startswith("=") for rec in res["paths"][1:]) and any(rec.startswith("Lena") for rec in res["paths"])
-    if op in ("getx", "upd", "fuw"):
+    if op in ("getx", "upd", "fuw", "context"):
         return True
     if op == "s2d":
         return True
